@@ -212,12 +212,13 @@ def sl_get_unchecked(P, c, args, dt):
     return seq_index(P, args[0], args[1])
 
 
-@model('std::slice::<impl [T]>::split_first', 'std::slice::<impl [T]>::split_last')
+@model('std::slice::<impl [T]>::split_first', 'std::slice::<impl [T]>::split_last',
+       'std::slice::<impl [T]>::split_first_mut', 'std::slice::<impl [T]>::split_last_mut')
 def sl_split_first(P, c, args, dt):
     s = as_slice(args[0])
     if not len(s):
         return none()
-    if c.method == 'split_first':
+    if c.method.startswith('split_first'):
         return some(tup(Ref(s.vec, s.a), SliceRef(s.vec, s.a + 1, s.b)))
     return some(tup(Ref(s.vec, s.b - 1), SliceRef(s.vec, s.a, s.b - 1)))
 
